@@ -1,9 +1,12 @@
 """simdisk: S-Coda's MIDI save / load paths on a simulated disk (C12, C13).
 
-Seam: `mido.midifiles.midifiles.open` (a module-global lookup that falls through to the builtin) is shadowed by
-`SimDisk.open`, which returns a *real* io.BufferedWriter / io.BufferedReader of a seeded buffer size over `SimRaw`, an
-io.RawIOBase backed by an in-memory file system. Real: S-Coda, mido's SMF codec, CPython's buffered layer. Stub: the raw
-device and the directory. No file under /repo, /verif or /tmp is touched.
+Seam: while an operation runs, `builtins.open` / `io.open` are shadowed (mido's and S-Coda's `open(...)` calls are global
+lookups that fall through to the builtin). For binary opens of a path inside the run's private scratch directory the
+shadow returns a *real* io.BufferedWriter / io.BufferedReader of a seeded buffer size over `SimRaw`, an io.RawIOBase that
+injects the faults and passes everything else on to a real io.FileIO. The directory is a real, per-run scratch directory
+(removed when the run ends), so that a repository that starts to use `os.replace`, `os.path.exists`, `tempfile`, `fsync` or
+`pathlib` around its saves keeps working under simulation. Real: S-Coda, mido's SMF codec, CPython's buffered layer, the
+directory. Simulated: the raw device's behaviour (short counts, EINTR, ENOSPC, EIO). Nothing under /repo or /verif is touched.
 
 Faults (all placed by the run's seed, counted only when they actually fired):
   maskable      short write() / short readinto() counts, odd buffer sizes, one EINTR   -> must be invisible
@@ -13,10 +16,14 @@ Faults (all placed by the run's seed, counted only when they actually fired):
 """
 from __future__ import annotations
 
+import builtins
 import errno
 import io
+import os
 import random
+import shutil
 import struct
+import tempfile
 import zlib
 from fractions import Fraction
 
@@ -30,6 +37,22 @@ from sim.core import RunResult, Violation, EventLog
 from sim.observe import piano_roll, timesig_in_force, key_in_force, function_in_force, first_diff
 
 PPQN = 24
+_REAL_OPEN = builtins.open
+_REAL_IO_OPEN = io.open
+_REAL_FILEIO = io.FileIO
+_SCRATCH_PARENT = "/dev/shm" if os.path.isdir("/dev/shm") and os.access("/dev/shm", os.W_OK) else tempfile.gettempdir()
+
+
+_LIVE_ROOTS = set()
+
+
+def _sweep():
+    """Remove scratch directories a run left behind (exception paths) and restore the real open()."""
+    builtins.open = _REAL_OPEN
+    io.open = _REAL_IO_OPEN
+    for r in list(_LIVE_ROOTS):
+        shutil.rmtree(r, ignore_errors=True)
+        _LIVE_ROOTS.discard(r)
 
 
 # ------------------------------------------------------------------ the simulated device
@@ -45,21 +68,28 @@ class Plan:
         self.buf = d.get("buf", 8192)
         self.also_short = d.get("also_short", False)
         self.persist = d.get("persist", False)  # the condition (disk full, bad sector) outlives one open()
+        self.once = d.get("once", False)        # transient device error: fails once at that byte, a second attempt succeeds
 
 
 class SimRaw(io.RawIOBase):
-    def __init__(self, disk, name, mode, plan):
+    def __init__(self, disk, path, mode, plan):
         super().__init__()
         self.disk = disk
-        self._name = name
+        self._path = path
         self._mode = mode
         self.plan = plan
-        self.pos = 0
+        self.f = _REAL_FILEIO(path, mode.replace("b", ""))
         self._eintr_done = False
+        self._hard_done = False
         self._lcg = (plan.pattern * 2654435761 + 12345) & 0xFFFFFFFF
-        if mode == "wb":
-            disk.files[name] = bytearray()     # 'wb' truncates at open
-        self.data = disk.files[name]
+
+    @property
+    def name(self):
+        return self._path
+
+    @property
+    def mode(self):
+        return self._mode
 
     def _next_short(self, n):
         self._lcg = (self._lcg * 1103515245 + 12345) & 0x7FFFFFFF
@@ -69,93 +99,146 @@ class SimRaw(io.RawIOBase):
         return 1 + r % n
 
     def readable(self):
-        return self._mode == "rb"
+        return self.f.readable()
 
     def writable(self):
-        return self._mode == "wb"
+        return self.f.writable()
 
     def seekable(self):
         return True
 
+    def fileno(self):
+        return self.f.fileno()
+
     def tell(self):
-        return self.pos
+        return self.f.tell()
 
     def seek(self, off, whence=0):
-        if whence == 0:
-            self.pos = off
-        elif whence == 1:
-            self.pos += off
-        else:
-            self.pos = len(self.data) + off
-        return self.pos
+        return self.f.seek(off, whence)
+
+    def truncate(self, size=None):
+        return self.f.truncate(size)
+
+    def close(self):
+        if not self.closed:
+            try:
+                self.f.close()
+            finally:
+                super().close()
 
     def readinto(self, b):
-        n = min(len(b), len(self.data) - self.pos)
+        n = len(b)
         if n <= 0:
             return 0
+        pos = self.f.tell()
         p = self.plan
-        if p.kind == "eintr" and not self._eintr_done and self.pos >= p.at:
+        if p.kind == "eintr" and not self._eintr_done and pos >= p.at:
             self._eintr_done = True
             self.disk.fired("read_eintr")
             raise InterruptedError(errno.EINTR, "simulated EINTR on read")
-        if p.kind == "eio":
-            if self.pos >= p.at:
-                self.disk.fired("read_eio")
-                raise OSError(errno.EIO, "simulated I/O error on read")
-            n = min(n, p.at - self.pos)
-        if p.kind == "short" or p.also_short:
+        if p.kind == "eio" and not (p.once and self._hard_done):
+            if pos >= p.at:
+                # only a fault if there is still data to read there
+                if self.disk.size_of(self._path) > pos:
+                    self._hard_done = True
+                    self.disk.fired("read_eio")
+                    if p.once:
+                        self.disk.fired("read_eio_transient")
+                    raise OSError(errno.EIO, "simulated I/O error on read")
+            else:
+                n = min(n, p.at - pos)
+        if (p.kind == "short" or p.also_short) and n > 1:
             m = self._next_short(n)
             if m < n:
-                self.disk.fired("short_read")
+                avail = self.disk.size_of(self._path) - pos
+                if avail > m:
+                    self.disk.fired("short_read")
                 n = m
-        b[:n] = self.data[self.pos:self.pos + n]
-        self.pos += n
-        return n
+        return self.f.readinto(memoryview(b)[:n])
 
     def write(self, b):
         n = len(b)
         if n == 0:
             return 0
+        pos = self.f.tell()
         p = self.plan
-        if p.kind == "eintr" and not self._eintr_done and self.pos >= p.at:
+        if p.kind == "eintr" and not self._eintr_done and pos >= p.at:
             self._eintr_done = True
             self.disk.fired("write_eintr")
             raise InterruptedError(errno.EINTR, "simulated EINTR on write")
-        if p.kind in ("enospc", "eio"):
-            if self.pos >= p.at:
+        if p.kind in ("enospc", "eio") and not (p.once and self._hard_done):
+            if pos >= p.at:
+                self._hard_done = True
                 self.disk.fired("write_" + p.kind)
+                if p.once:
+                    self.disk.fired("write_" + p.kind + "_transient")
                 raise OSError(errno.ENOSPC if p.kind == "enospc" else errno.EIO, "simulated " + p.kind + " on write")
-            n = min(n, p.at - self.pos)
-        if p.kind == "short" or p.also_short:
+            n = min(n, p.at - pos)
+        if (p.kind == "short" or p.also_short) and n > 1:
             m = self._next_short(n)
             if m < n:
                 self.disk.fired("short_write")
                 n = m
-        mv = bytes(b[:n])
-        self.data[self.pos:self.pos + n] = mv
-        self.pos += n
-        return n
+        return self.f.write(memoryview(b)[:n])
 
 
 class SimDisk:
+    """A per-run scratch directory plus the `open` shadow that puts SimRaw under every binary open inside it."""
+
     def __init__(self, stats):
-        self.files = {}
+        self.root = tempfile.mkdtemp(prefix="scoda_sim_", dir=_SCRATCH_PARENT)
+        _LIVE_ROOTS.add(self.root)
         self.stats = stats
         self.next_plan = None
         self.fired_now = set()
         self.opened = 0
         self.opened_in_op = 0
+        self._depth = 0
+
+    def path(self, name):
+        return os.path.join(self.root, name + ".mid")
+
+    def names(self):
+        return sorted(f[:-4] for f in os.listdir(self.root) if f.endswith(".mid"))
+
+    def exists(self, name):
+        return os.path.isfile(self.path(name))
+
+    def size_of(self, path):
+        try:
+            return os.stat(path).st_size
+        except OSError:
+            return 0
+
+    def read_bytes(self, name):
+        try:
+            with _REAL_OPEN(self.path(name), "rb") as f:
+                return f.read()
+        except OSError:
+            return b""
+
+    def write_bytes(self, name, data):
+        with _REAL_OPEN(self.path(name), "wb") as f:
+            f.write(data)
+
+    def cleanup(self):
+        shutil.rmtree(self.root, ignore_errors=True)
+        _LIVE_ROOTS.discard(self.root)
 
     def fired(self, kind):
         self.stats["fault/" + kind] += 1
         self.fired_now.add(kind)
 
-    def open(self, name, mode="rb", *a, **kw):
-        name = str(name)
-        if mode not in ("rb", "wb"):
-            raise ValueError(f"simdisk: unsupported mode {mode}")
-        if mode == "rb" and name not in self.files:
-            raise FileNotFoundError(errno.ENOENT, "simulated: no such file", name)
+    def open(self, file, mode="r", buffering=-1, *a, **kw):
+        try:
+            path = os.fspath(file)
+        except TypeError:
+            return _REAL_OPEN(file, mode, buffering, *a, **kw)
+        if isinstance(path, bytes):
+            path = os.fsdecode(path)
+        inside = isinstance(path, str) and os.path.abspath(path).startswith(self.root + os.sep)
+        if not inside or "b" not in mode:
+            return _REAL_OPEN(file, mode, buffering, *a, **kw)
         plan = Plan(self.next_plan)
         if not plan.persist:
             self.next_plan = None   # transient: only the first open of the operation sees it
@@ -163,23 +246,30 @@ class SimDisk:
         if self.opened_in_op > 0:
             self.stats["reach_io/reopen_within_one_operation"] += 1
         self.opened_in_op += 1
-        raw = SimRaw(self, name, mode, plan)
-        if mode == "wb":
-            return io.BufferedWriter(raw, buffer_size=max(1, plan.buf))
-        return io.BufferedReader(raw, buffer_size=max(1, plan.buf))
+        raw = SimRaw(self, path, mode, plan)
+        size = max(1, plan.buf)
+        if buffering == 0:
+            return raw
+        if "+" in mode:
+            return io.BufferedRandom(raw, buffer_size=size)
+        if raw.writable():
+            return io.BufferedWriter(raw, buffer_size=size)
+        return io.BufferedReader(raw, buffer_size=size)
 
     def __enter__(self):
-        self.opened_in_op = 0
-        self._old = mido_mf.__dict__.get("open", None)
-        mido_mf.open = self.open
+        self._depth += 1
+        if self._depth == 1:
+            self.opened_in_op = 0
+            builtins.open = self.open
+            io.open = self.open
         return self
 
     def __exit__(self, *exc):
-        if self._old is None:
-            del mido_mf.open
-        else:
-            mido_mf.open = self._old
-        self.next_plan = None
+        self._depth -= 1
+        if self._depth == 0:
+            builtins.open = _REAL_OPEN
+            io.open = _REAL_IO_OPEN
+            self.next_plan = None
         return False
 
 
@@ -246,7 +336,7 @@ class DiskWorld:
 
     def apply(self, ev, idx):
         op = ev["op"]
-        name = "/sim/" + ev.get("name", "a") + ".mid"
+        name = ev.get("name", "a")
         if op == "save":
             return self._save(ev, name, idx)
         if op == "load":
@@ -295,11 +385,11 @@ class DiskWorld:
         try:
             with self.disk:
                 if comp is not None:
-                    comp.save(name)
+                    comp.save(self.disk.path(name))
                 elif ev.get("via") == "save" and len(seqs) == 1:
-                    seqs[0].save(name)
+                    seqs[0].save(self.disk.path(name))
                 else:
-                    Sequence.sequences_save(seqs, name)
+                    Sequence.sequences_save(seqs, self.disk.path(name))
         except core.RunTimeout:
             raise
         except Exception as e:
@@ -322,7 +412,7 @@ class DiskWorld:
                 return None
             self.acked[name] = None
             self.stats["reach_save/raised_under_fault"] += 1
-            self.log.add("save", name, "raised", type(exc).__name__, sorted(fired), len(self.disk.files.get(name, b"")))
+            self.log.add("save", name, "raised", type(exc).__name__, sorted(fired), len(self.disk.read_bytes(name)))
             return None
         # acknowledged
         self.acked[name] = {"music": expected if comp is not None else expected_music(specs),
@@ -330,12 +420,12 @@ class DiskWorld:
         self.stats["reach_save/acknowledged"] += 1
         if hard:
             self.stats["reach_save/acknowledged_despite_hard_fault"] += 1
-        data = bytes(self.disk.files.get(name, b""))
+        data = self.disk.read_bytes(name)
         self.log.add("save", name, "ack", sorted(fired), len(data), zlib.crc32(data))
         return None
 
     def _load(self, ev, name, idx):
-        if name not in self.disk.files:
+        if not self.disk.exists(name):
             self.log.add("load", name, "skip:nofile")
             return None
         plan = ev.get("plan") or {}
@@ -345,7 +435,7 @@ class DiskWorld:
         seqs = None
         try:
             with self.disk:
-                seqs = Sequence.sequences_load(file_path=name)
+                seqs = Sequence.sequences_load(file_path=self.disk.path(name))
         except core.RunTimeout:
             raise
         except Exception as e:
@@ -400,21 +490,20 @@ class DiskWorld:
 
     def _torn(self, ev, name, idx):
         """Informational probe: what does loading a torn file do? Never a violation (C12 promises nothing here)."""
-        if name not in self.disk.files or len(self.disk.files[name]) < 2:
+        saved = self.disk.read_bytes(name)
+        if len(saved) < 2:
             return None
-        data = self.disk.files[name]
-        cut = ev.get("cut", 1) % len(data)
-        saved = bytes(data)
-        self.disk.files[name] = bytearray(saved[:cut])
+        cut = ev.get("cut", 1) % len(saved)
+        self.disk.write_bytes(name, saved[:cut])
         try:
             with self.disk:
-                Sequence.sequences_load(file_path=name)
+                Sequence.sequences_load(file_path=self.disk.path(name))
             self.stats["probe/torn_file_load:returned"] += 1
         except core.RunTimeout:
             raise
         except Exception as e:
             self.stats[f"probe/torn_file_load:raised_{type(e).__name__}"] += 1
-        self.disk.files[name] = bytearray(saved)
+        self.disk.write_bytes(name, saved)
         self.log.add("torn_probe", name, cut)
         return None
 
@@ -476,7 +565,7 @@ def gen_plan(rng, direction, size_hint):
     at = rng.randrange(0, max(1, size_hint)) if rng.random() < 0.85 else rng.randrange(0, size_hint * 2 + 50)
     kind = "eio" if direction == "r" else rng.choice(["enospc", "eio"])
     return {"kind": kind, "at": at, "buf": buf, "also_short": rng.random() < 0.3, "pattern": rng.randrange(1, 1 << 20),
-            "persist": rng.random() < 0.6}
+            "persist": rng.random() < 0.6, "once": rng.random() < 0.35}
 
 
 def c12_run_one(seed, tier, index):
@@ -491,7 +580,7 @@ def c12_run_one(seed, tier, index):
     n_ops = rng.randrange(2, 7)
     size_hint = 60
     for k in range(n_ops):
-        have = sorted(n[5:-4] for n in world.disk.files)
+        have = world.disk.names()
         if k == 0 or (rng.random() < 0.4) or not have:
             ev = {"op": "save", "name": rng.choice(names), "which": rng.randrange(len(pool)),
                   "plan": {"kind": "none", "buf": 8192} if lane == "baseline" else gen_plan(rng, "w", size_hint),
@@ -503,14 +592,16 @@ def c12_run_one(seed, tier, index):
                   "plan": {"kind": "none", "buf": 8192} if lane == "baseline" else gen_plan(rng, "r", size_hint)}
         events.append(ev)
         viol = world.apply(ev, len(events) - 1)
-        if world.disk.files:
-            size_hint = max(len(v) for v in world.disk.files.values()) or size_hint
+        sizes = [world.disk.size_of(world.disk.path(n)) for n in world.disk.names()]
+        if sizes:
+            size_hint = max(sizes) or size_hint
         if viol is not None or world.foreign:
             break
     return _c12_result(world, viol, {"engine": "simdisk/C12", "seed": seed, "lane": lane, "init": init, "events": events})
 
 
 def _c12_result(world, viol, trace):
+    world.disk.cleanup()
     res = RunResult()
     res.trace = trace
     res.violation = viol
@@ -601,11 +692,17 @@ class C12Engine(_DiskEngine):
 
     @staticmethod
     def run_one(seed, tier, index):
-        return c12_run_one(seed, tier, index)
+        try:
+            return c12_run_one(seed, tier, index)
+        finally:
+            _sweep()
 
     @staticmethod
     def replay(trace, keep_log=False):
-        return c12_replay(trace, keep_log)
+        try:
+            return c12_replay(trace, keep_log)
+        finally:
+            _sweep()
 
     @staticmethod
     def simplify(trace):
@@ -879,7 +976,7 @@ class LoadWorld:
         self.judged = 0
         f = self.file
         data = write_smf_mido(f["tpb"], f["tracks"]) if f["writer"] == "mido" else write_smf_raw(f["tpb"], f["tracks"])
-        self.disk.files["/sim/in.mid"] = bytearray(data)
+        self.disk.write_bytes("in", data)
         self.size = len(data)
         self.stats[f"reach_writer/{f['writer']}"] += 1
         self.stats[f"reach_tpb/{f['tpb']}"] += 1
@@ -893,7 +990,7 @@ class LoadWorld:
         seqs = None
         try:
             with self.disk:
-                seqs = Sequence.sequences_load(file_path="/sim/in.mid",
+                seqs = Sequence.sequences_load(file_path=self.disk.path("in"),
                                                track_indices=[list(g) for g in f["groups"]] if f["groups"] is not None else None,
                                                meta_track_indices=list(f["meta"]) if f["meta"] is not None else None,
                                                target_meta_track_index=f["target"])
@@ -958,6 +1055,7 @@ def c13_run_one(seed, tier, index):
 
 
 def _c13_result(world, viol, trace):
+    world.disk.cleanup()
     res = RunResult()
     res.trace = trace
     res.violation = viol
@@ -1036,11 +1134,17 @@ class C13Engine(_DiskEngine):
 
     @staticmethod
     def run_one(seed, tier, index):
-        return c13_run_one(seed, tier, index)
+        try:
+            return c13_run_one(seed, tier, index)
+        finally:
+            _sweep()
 
     @staticmethod
     def replay(trace, keep_log=False):
-        return c13_replay(trace, keep_log)
+        try:
+            return c13_replay(trace, keep_log)
+        finally:
+            _sweep()
 
     @staticmethod
     def simplify(trace):
